@@ -16,6 +16,7 @@ def main(argv=None):
     ap.add_argument("prop")
     ap.add_argument("--tier", default=os.environ.get("VERIF_TIER", "quick"), choices=["quick", "thorough"])
     ap.add_argument("--replay")
+    ap.add_argument("--finding", help="re-execute the failing input recorded for this key in known_findings.json")
     ap.add_argument("--no-evidence", action="store_true")
     ap.add_argument("--only", help="substring filter on task descriptors (debugging; evidence marked non-exhaustive)")
     a = ap.parse_args(argv)
@@ -44,6 +45,15 @@ def main(argv=None):
     findings = [f for f in core.load_findings() if f["property"] == prop]
     open_keys = {f["key"]: f for f in findings if f["status"] == "open"}
 
+    if a.finding:
+        f0 = next((f for f in findings if f["key"] == a.finding and f.get("replay_task")), None)
+        if f0 is None:
+            print(f"no open finding with key {a.finding!r} and a recorded input for {prop}")
+            return 2
+        os.makedirs(os.path.join(core.VERIF, "replays", prop), exist_ok=True)
+        a.replay = os.path.join(core.VERIF, "replays", prop, "finding-" + core.jhash(a.finding) + ".json")
+        with open(a.replay, "w") as f:
+            json.dump({"property": prop, "key": f0["key"], "what": f0["what"], "task": f0["replay_task"]}, f, indent=1, default=str)
     if a.replay:
         with open(a.replay) as f:
             rp = json.load(f)
